@@ -114,4 +114,14 @@ var props = map[string]propDef{
 		Thorough:       budget{Runs: 30000, Chunk: 100, Wall: 40 * time.Minute, PerChunkGrace: 5 * time.Minute},
 		MinimiseBudget: 60 * time.Second,
 	},
+	"C05": {
+		Binary: "dsim-store", Harness: "C05", Level: "exploration",
+		Rule: "each run = 1-3 writer processes (put chunks, commit: persist table files, update manifest), optionally a conjoiner (ConjoinTableFiles), a GC (mark-and-sweep table swap, parked between its phases; the non-grace PruneTableFiles is single-process by design and is not run against foreign writers) and a grace-period pruner (PruneUnreferencedWithGrace, grace 5ms-3s of simulated time, simulated nanosecond mtimes), each owning its own store object on ONE file-manifest directory, interleaved by the seeded S1 scheduler at a per-run subset of file-operation classes (rename, remove, create, open, stat, fsync, readdir, write) with the fake clock advanced by scheduler decisions. Part 1: after every recorded namespace-changing file-system event the manifest on disk must parse as a complete version and every table file or archive it names must exist. Part 2: crash images (lose-all-unsynced, keep-all, names-only, dirs-durable+data-all) at the op-log positions that touch the manifest, temp manifests, table files or directory fsyncs: the persisted manifest must be byte-identical to a version some update wrote completely, every file it names must be in the image and must read back completely. One evaluation = one live invariant check or one distinct crash image. Non-trivial: a run with >=1 context switch and >=1 successful commit (schedule hash), and every distinct crash image.",
+		Assumptions: []string{persistenceModel, "writers that stall longer than the grace period are outside the prune protocol's stated assumption; the asserted invariant (the manifest never names a missing file) must hold regardless and is what is checked", "automatic background conjoin is disabled; conjoin is an explicit actor", "tasks are parked only where they hold no in-process lock another task needs; temp-file creation is not a scheduling point"},
+		Real:        storeReal, Stub: append([]string{"goroutine scheduling at file-operation granularity (seeded S1 scheduler)", "file mtimes (stamped from the simulated clock, strictly increasing)"}, storeStub...), Persistence: persistenceModel,
+		ExpectProbes:   []string{"writer_commit_ok", "context-switch", "clock-advance", "conjoin", "gc-swap", "grace-prune-unlinked", "grace_prune_skipped", "update-refused-missing-table-file", "crash:names-only", "cas-contention"},
+		Quick:          budget{Runs: 300, Chunk: 20, Wall: 150 * time.Second, PerChunkGrace: 120 * time.Second},
+		Thorough:       budget{Runs: 20000, Chunk: 100, Wall: 40 * time.Minute, PerChunkGrace: 5 * time.Minute},
+		MinimiseBudget: 60 * time.Second,
+	},
 }
